@@ -34,6 +34,7 @@ type Obl struct {
 	splits []string
 	splitTerms []string
 	outLen int
+	entrySeq, cutSeq int // hard cut: only assumptions with seq < entrySeq or >= cutSeq are used (cutSeq == 0: all)
 }
 
 type Gen struct {
@@ -57,6 +58,7 @@ type Gen struct {
 	entry    *State
 	modset   func(r string) string // "ref r may be modified by the top function" ; nil = nothing
 	modRefs  []string
+	entrySeq, cutSeq int
 	modRanges []modRange
 	recvSliceInv func(st *State) []string
 	inputBufs  []string // []byte parameters that must not be retained (noalias mode)
@@ -144,7 +146,7 @@ func (g *Gen) oblige(kind, detail, reach, cond string, pos token.Position, text 
 	k := g.nameCnt[base]
 	g.nameCnt[base] = k + 1
 	name := fmt.Sprintf("%s#%d", base, k)
-	g.obls = append(g.obls, Obl{name: name, kind: kind, seq: g.seq, reach: reach, cond: cond, pos: pos, text: text, fn: shortFn(g.top), outLen: len(g.out)})
+	g.obls = append(g.obls, Obl{name: name, kind: kind, seq: g.seq, reach: reach, cond: cond, pos: pos, text: text, fn: shortFn(g.top), outLen: len(g.out), entrySeq: g.entrySeq, cutSeq: g.cutSeq})
 	return &g.obls[len(g.obls)-1]
 }
 
@@ -555,6 +557,7 @@ type Act struct {
 	panicked string
 	preEnv  map[ssa.Value]string
 	curReach string
+	firedCuts map[*Cut]bool
 }
 
 func (a *Act) nm(base string) string { return a.prefix + base }
@@ -858,11 +861,14 @@ func (a *Act) run(args []string, st0 *State, reach0 string) {
 				a.env[phi] = a.phiTerm(phi, ins)
 			}
 		}
-		for _, instr := range b.Instrs {
+		for ii, instr := range b.Instrs {
 			if _, ok := instr.(*ssa.Phi); ok {
 				continue
 			}
 			a.exec(instr, st, reach, b)
+			if a.top && a.ct != nil && len(a.ct.Cuts) > 0 {
+				a.fireCuts(b, ii, st, reach)
+			}
 		}
 		a.stOut[b] = st
 	}
@@ -1637,4 +1643,65 @@ func shortName(s string) string {
 
 func isIdentChar(c byte) bool {
 	return c >= 'a' && c <= 'z' || c >= 'A' && c <= 'Z' || c >= '0' && c <= '9' || c == '_'
+}
+
+// fireCuts: after the last instruction of a source line that a cut of the contract is anchored on, the cut's
+// expression becomes an obligation and then an assumption.
+func (a *Act) fireCuts(b *ssa.BasicBlock, ii int, st *State, reach string) {
+	g := a.g
+	instr := b.Instrs[ii]
+	if !instr.Pos().IsValid() {
+		return
+	}
+	line := g.eng.sourceLine(a.pos(instr.Pos()))
+	if line == "" {
+		return
+	}
+	// last instruction of that line in this block?
+	for j := ii + 1; j < len(b.Instrs); j++ {
+		nx := b.Instrs[j]
+		if _, isDbg := nx.(*ssa.DebugRef); isDbg {
+			continue
+		}
+		if nx.Pos().IsValid() && g.eng.sourceLine(a.pos(nx.Pos())) == line {
+			return
+		}
+		if nx.Pos().IsValid() {
+			break
+		}
+	}
+	for _, c := range a.ct.Cuts {
+		if c.Anchor != line {
+			continue
+		}
+		if g.eng.curModes.Post {
+			terms := a.evalClauseAt(c.Cl, st, nil, nil)
+			for j, t := range terms {
+				g.oblige("cut", fmt.Sprintf("%s:%s", clauseLabel(c.Cl, 0, j), a.srcDetail(instr)), reach, t, a.pos(instr.Pos()), "assert "+c.Cl.Text)
+				g.assumeIf(reach, t)
+			}
+			if c.Hard {
+				// what follows is proved from the facts established at entry and from this assertion: the state is
+				// forgotten like at a loop head (memory that existed at entry and is outside the modifies set is unchanged,
+				// everything else is arbitrary) and the assertion is assumed for the new state. Dropping knowledge is sound;
+				// it keeps the queries of long straight-line functions small.
+				g.seq++
+				g.cutSeq = g.seq
+				old := st.clone()
+				st.Next = g.havoc(a.nm("cut_next"), "Int")
+				g.assumeIf(reach, fmt.Sprintf("(>= %s %s)", st.Next, old.Next))
+				for _, k := range heapKinds {
+					if g.modAll {
+						st.H[k] = g.havoc(a.nm("cut_H"+k), heapSort[k])
+						continue
+					}
+					st.H[k] = g.framedHeap(a.nm("cut"), k, g.entry.H[k], g.entry.Next, g.modRefs, true)
+				}
+				for _, t := range a.evalClauseAt(c.Cl, st, nil, nil) {
+					g.assumeIf(reach, t)
+				}
+			}
+		}
+		a.firedCuts[c] = true
+	}
 }
